@@ -5,6 +5,7 @@ pub mod c02;
 pub mod c03;
 pub mod c04;
 pub mod c05;
+pub mod c06;
 pub mod c08;
 pub mod c09;
 pub mod c10;
@@ -12,6 +13,8 @@ pub mod c11;
 pub mod c12;
 pub mod c13;
 pub mod c15;
+pub mod c17;
+pub mod c19;
 pub mod c20;
 pub mod cli;
 
@@ -41,6 +44,7 @@ pub fn plan(ctx: &Ctx) -> Option<Plan> {
         "C03" => Some(c03::plan(ctx)),
         "C04" => Some(c04::plan(ctx)),
         "C05" => Some(c05::plan(ctx)),
+        "C06" => Some(c06::plan(ctx)),
         "C08" => Some(c08::plan(ctx)),
         "C09" => Some(c09::plan(ctx)),
         "C10" => Some(c10::plan(ctx)),
@@ -48,6 +52,8 @@ pub fn plan(ctx: &Ctx) -> Option<Plan> {
         "C12" => Some(c12::plan(ctx)),
         "C13" => Some(c13::plan(ctx)),
         "C15" => Some(c15::plan(ctx)),
+        "C17" => Some(c17::plan(ctx)),
+        "C19" => Some(c19::plan(ctx)),
         "C20" => Some(c20::plan(ctx)),
         _ => None,
     }
